@@ -591,4 +591,215 @@ theorem minDurs_runs (ε : Nat) (t : List Op) : ∀ c, (runClock ε c (minDurs t
       cases op <;> cases dl <;> simp [durOk] <;> omega
     cases op <;> (simp only [minDurs, runClock_cons]; rw [if_pos (by simpa using hd)]; exact ih _)
 
+/-! ### elapsed time -/
+
+/-- one absolute deadline armed at `t0`, then reads and writes only: the end is no later than
+    `t0 + T`, whatever the clock's previous deadline was -/
+theorem elapsed_single_deadline {ε T t0 : Nat} {dl0 : Option Nat} {ops : List Op}
+    (hio : ∀ op ∈ ops, op.isIO = true) {durs : List (Op × Nat)} {c' : Clock}
+    (hmap : durs.map Prod.fst = .setDeadline T :: ops)
+    (hrun : runClock ε ⟨t0, dl0⟩ durs = some c') :
+    c'.now ≤ t0 + T ∧ c'.deadline = some (t0 + T) := by
+  obtain ⟨d, rest, hrest, hd, hrun'⟩ := run_cons_inv hmap hrun
+  simp only [durOk] at hd
+  subst hd
+  obtain ⟨h1, h2⟩ := run_io (D := t0 + T) hio hrest rfl hrun'
+  simp only [Clock.step, Nat.add_zero] at h2
+  exact ⟨by omega, h1⟩
+
+theorem mbapTrace_io (L : Nat) (txn : U16) (s : Bytes) :
+    ∀ op ∈ Op.write L :: mbapReads txn s, op.isIO = true := by
+  intro op hop
+  rcases List.mem_cons.mp hop with rfl | h
+  · rfl
+  · exact isIO_of_isRead (mbapReads_isRead txn s op h)
+
+theorem rfTrace_isIO (n a : Nat) : ∀ op ∈ rfTrace n a, op.isIO = true :=
+  fun op h => isIO_of_isRead (rfTrace_isRead n a op h)
+
+/-- worst-case end of an RTU exchange under the clock semantics -/
+theorem elapsed_rtu {ε T rate L w post t0 : Nat} {dl0 : Option Nat} {s : Bytes} {e : Ending}
+    {durs : List (Op × Nat)} {c' : Clock}
+    (hmap : durs.map Prod.fst = rtuTrace T rate L w post s e)
+    (hrun : runClock ε ⟨t0, dl0⟩ durs = some c') :
+    c'.now ≤ max (t0 + T) (t0 + (if w > 0 then w + ε else 0)) + (post + ε) +
+      (Timing.maxRTUFrameLength * Timing.t1 rate + ε + 500000) ∧
+    (rtuTail rate (Rtu.readFrame s e) = [] →
+      c'.now ≤ max (t0 + T) (t0 + (if w > 0 then w + ε else 0)) + (post + ε)) := by
+  unfold rtuTrace at hmap
+  obtain ⟨d1, dTail, c5, h1, hTail, r1, rTail⟩ := run_append_inv hmap hrun
+  obtain ⟨d2, dR, c4, h2, hR, r2, rR⟩ := run_append_inv h1 r1
+  obtain ⟨d3, dM, c2, h3, hM, r3, rM⟩ := run_append_inv h2 r2
+  obtain ⟨dA, dW, c1, hA, hW, rA, rW⟩ := run_append_inv h3 r3
+  -- SetDeadline(now + T)
+  have hc1 := run_setDeadline hA rA
+  simp only at hc1
+  -- the optional pre-transmission sleep
+  have hc2 : c2.deadline = some (t0 + T) ∧ c2.now ≤ t0 + (if w > 0 then w + ε else 0) := by
+    by_cases hw : w > 0
+    · rw [if_pos hw] at hW ⊢
+      obtain ⟨h1, h2, _⟩ := run_sleep hW rW
+      rw [hc1] at h1 h2
+      simp only at h2
+      exact ⟨h1, by omega⟩
+    · rw [if_neg hw] at hW ⊢
+      have : dW = [] := by simpa using hW
+      subst this
+      injection rW with rW
+      rw [← rW, hc1]
+      exact ⟨rfl, Nat.le_refl _⟩
+  -- Write, then the post-transmission sleep
+  obtain ⟨dWr, dSl, c3, hWr, hSl, rWr, rSl⟩ :=
+    run_append_inv (a := [.write L]) (b := [.sleep post]) hM rM
+  obtain ⟨hc3d, hc3⟩ := run_io (D := t0 + T) (ops := [.write L])
+    (by intro op h; simp at h; subst h; rfl) hWr hc2.1 rWr
+  obtain ⟨hc4d, hc4, _⟩ := run_sleep hSl rSl
+  rw [hc3d] at hc4d
+  -- readRTUFrame
+  obtain ⟨hc5d, hc5⟩ := run_io (D := t0 + T)
+    (fun op h => isIO_of_isRead (rtuReadOps_isRead s op h)) hR hc4d rR
+  have hbase : c5.now ≤ max (t0 + T) (t0 + (if w > 0 then w + ε else 0)) + (post + ε) := by
+    have := hc2.2
+    omega
+  rcases rtuTail_cases rate (Rtu.readFrame s e) with ⟨ht, _⟩ | ⟨ht, _⟩
+  · rw [ht] at hTail
+    have : dTail = [] := by simpa using hTail
+    subst this
+    injection rTail with rTail
+    subst rTail
+    exact ⟨by omega, fun _ => hbase⟩
+  · rw [ht] at hTail ⊢
+    unfold resyncOps at hTail
+    obtain ⟨dS, dF, c7, hS, hF, rS, rF⟩ := run_append_inv hTail rTail
+    obtain ⟨dS1, dS2, c6, hS1, hS2, rS1, rS2⟩ := run_append_inv
+      (a := [.sleep (Timing.maxRTUFrameLength * Timing.t1 rate)]) (b := [.setDeadline 500000]) hS rS
+    obtain ⟨_, hc6, _⟩ := run_sleep hS1 rS1
+    have hc7 := run_setDeadline hS2 rS2
+    obtain ⟨_, hc'⟩ := run_io (D := c6.now + 500000) (rfTrace_isIO _ _) hF (by rw [hc7]) rF
+    rw [hc7] at hc'
+    simp only at hc'
+    refine ⟨by omega, fun h => ?_⟩
+    simp [resyncOps] at h
+
+theorem rtuMargin_bound {ε T rate w post t0 : Nat} :
+    max (t0 + T) (t0 + (if w > 0 then w + ε else 0)) + (post + ε) +
+      (Timing.maxRTUFrameLength * Timing.t1 rate + ε + 500000) ≤ t0 + T + rtuMargin rate w post ε := by
+  unfold rtuMargin
+  split <;> omega
+
+/-- the margin shrinks as the baud rate grows -/
+theorem rtuMargin_anti {r1 r2 : Nat} (h1 : 1 ≤ r1) (h : r1 ≤ r2) (w post ε : Nat) :
+    rtuMargin r2 w post ε ≤ rtuMargin r1 w post ε := by
+  have ht : Timing.t1 r2 ≤ Timing.t1 r1 := by
+    unfold Timing.t1 Timing.charTime
+    exact Nat.div_le_div_left h (by omega)
+  have := Nat.mul_le_mul_left Timing.maxRTUFrameLength ht
+  unfold rtuMargin
+  omega
+
+theorem rtuMargin_19200 (w post ε : Nat) :
+    rtuMargin 19200 w post ε = (if w > 0 then w + ε else 0) + post + 2 * ε + 147166496 := by
+  have : Timing.maxRTUFrameLength * Timing.t1 19200 = 146666496 := by decide
+  unfold rtuMargin
+  rw [this]
+  omega
+
+/-! ### client level -/
+
+theorem shortErr_timeout (k : Nat) : shortErr k .timeout = .ioTimeout := by
+  unfold shortErr; split <;> rfl
+
+open Modbus.Client in
+/-- whatever the transport, an i/o timeout out of `ExecuteRequest` is reported by the public
+    call as ErrRequestTimedOut (`executeRequest`: `os.IsTimeout(err)`) -/
+theorem run_of_transport_timeout {cfg : Cfg} {op : Client.Op} {c : Core} {fc : Byte} {p : Bytes}
+    (hcore : op.core cfg = some c) (hreq : c.request = .ok (fc, p))
+    {st : TState} {arrivals : Bytes} {e : Ending}
+    (h : (transportRead cfg.kind (frameFor cfg.kind st ⟨cfg.unitId, fc, p⟩).2
+      (st.pending ++ arrivals) e).1 = .error .ioTimeout) :
+    (op.run cfg st arrivals e).result = some (.error .requestTimedOut) := by
+  rw [ClientResp.run_accepted st arrivals e hcore hreq]
+  simp only [h, ClientResp.pduOutcome_timeout]
+
+/-! ### shape of the traces -/
+
+theorem countDeadlines_append (a b : List Op) :
+    countDeadlines (a ++ b) = countDeadlines a + countDeadlines b := by
+  simp [countDeadlines]
+
+theorem countDeadlines_reads {t : List Op} (h : ∀ op ∈ t, op.isRead = true) : countDeadlines t = 0 := by
+  unfold countDeadlines
+  rw [List.length_eq_zero_iff, List.filter_eq_nil_iff]
+  intro op hop
+  have := h op hop
+  cases op <;> simp_all [Op.isRead, Op.isSetDeadline]
+
+theorem filter_isRead_reads {t : List Op} (h : ∀ op ∈ t, op.isRead = true) : t.filter Op.isRead = t :=
+  List.filter_eq_self.mpr h
+
+theorem gotSum_mbapTrace (T L : Nat) (txn : U16) (s : Bytes) :
+    gotSum (mbapTrace T L txn s) = gotSum (mbapReads txn s) := by
+  simp [mbapTrace, gotSum, Op.got]
+
+theorem hasEnd_mbapTrace (T L : Nat) (txn : U16) (s : Bytes) :
+    hasEnd (mbapTrace T L txn s) = hasEnd (mbapReads txn s) := by
+  simp [mbapTrace, hasEnd, Op.isEnd]
+
+theorem hasEnd_iff (t : List Op) : hasEnd t = true ↔ ∃ n, Op.readEnd n ∈ t := by
+  unfold hasEnd
+  rw [List.any_eq_true]
+  constructor
+  · rintro ⟨op, hop, h⟩
+    cases op <;> first | exact ⟨_, hop⟩ | cases h
+  · rintro ⟨n, h⟩
+    exact ⟨_, h, rfl⟩
+
+/-- the part of the RTU trace in front of `readRTUFrame`: sleeps and the write -/
+def rtuPre (L w post : Nat) : List Op :=
+  (if w > 0 then [Op.sleep w] else []) ++ [.write L, .sleep post]
+
+theorem rtuTrace_eq (T rate L w post : Nat) (s : Bytes) (e : Ending) :
+    rtuTrace T rate L w post s e =
+      .setDeadline T :: (rtuPre L w post ++ rtuReadOps s ++ rtuTail rate (Rtu.readFrame s e)) := by
+  simp [rtuTrace, rtuPre]
+
+theorem rtuPre_spec (L w post : Nat) :
+    (∀ op ∈ rtuPre L w post, op.isSetDeadline = false ∧ op.isRead = false) ∧
+    gotSum (rtuPre L w post) = 0 ∧ countDeadlines (rtuPre L w post) = 0 := by
+  unfold rtuPre
+  split <;> simp [gotSum, Op.got, countDeadlines, Op.isSetDeadline, Op.isRead]
+
+theorem rtuTail_shape (rate : Nat) (r : (Except Err Pdu) × Bytes) :
+    rtuTail rate r = [] ∨
+    rtuTail rate r = .sleep (256 * Timing.t1 rate) :: .setDeadline 500000 :: rfTrace 1024 r.2.length := by
+  rcases rtuTail_cases rate r with ⟨h, _⟩ | ⟨h, _⟩
+  · exact Or.inl h
+  · exact Or.inr h
+
+theorem countDeadlines_rtuTrace (T rate L w post : Nat) (s : Bytes) (e : Ending) :
+    countDeadlines (rtuTrace T rate L w post s e) ≤ 2 := by
+  rw [rtuTrace_eq]
+  have h1 := (rtuPre_spec L w post).2.2
+  have h2 := countDeadlines_reads (rtuReadOps_isRead s)
+  have h3 : countDeadlines (rtuTail rate (Rtu.readFrame s e)) ≤ 1 := by
+    rcases rtuTail_shape rate (Rtu.readFrame s e) with h | h
+    · rw [h]; simp [countDeadlines]
+    · rw [h]
+      have := countDeadlines_reads (rfTrace_isRead 1024 (Rtu.readFrame s e).2.length)
+      simp only [countDeadlines, List.filter_cons, Op.isSetDeadline] at this ⊢
+      simp [this]
+  have : countDeadlines (Op.setDeadline T :: (rtuPre L w post ++ rtuReadOps s ++ rtuTail rate (Rtu.readFrame s e)))
+      = 1 + countDeadlines (rtuPre L w post ++ rtuReadOps s ++ rtuTail rate (Rtu.readFrame s e)) := by
+    unfold countDeadlines
+    rw [List.filter_cons_of_pos (by rfl), List.length_cons]; omega
+  rw [this, countDeadlines_append, countDeadlines_append]
+  omega
+
+theorem gotSum_rtuTrace (T rate L w post : Nat) (s : Bytes) (e : Ending) :
+    gotSum (rtuTrace T rate L w post s e) =
+      gotSum (rtuReadOps s ++ rtuTail rate (Rtu.readFrame s e)) := by
+  rw [rtuTrace_eq]
+  simp only [gotSum, Op.got, List.append_assoc, gotSum_append, (rtuPre_spec L w post).2.1]
+  omega
+
 end Modbus.Io
